@@ -5,6 +5,7 @@ import (
 	"path/filepath"
 	"strings"
 	"syscall"
+	"time"
 
 	"verif/harness/core"
 	"verif/harness/run"
@@ -66,4 +67,71 @@ func interruptedRuns(c *core.Ctx, cmds map[string]string) {
 			}
 		}
 	}
+}
+
+// pausedPipes: the log or the book comes through a named pipe whose writer falls silent in the middle for longer
+// than any idle limit a reader might have (31 s; thorough: also 65 s) and then goes on. A silent writer is not the
+// end of the file: the report is the report of the whole text, or the command fails. Started in the background by
+// the checks that use it (returns a function that waits for the verdicts), so that the pause costs no extra time.
+// cmds: command -> which of its files comes from the pipe ("log" or "book").
+func pausedPipes(c *core.Ctx, cmds map[string]string) (wait func()) {
+	dir := filepath.Join(c.Work, "paused-pipes")
+	var log, book strings.Builder
+	for d := 0; d < 60; d++ {
+		fmt.Fprintf(&log, "%04d/%02d/%02d:\n  bread, \"dark\": %d\n  r%03d: 1.5\n", 2021, 1+(d/28)%12, 1+d%28, 1+d%9, d%40)
+	}
+	for k := 0; k < 60; k++ {
+		fmt.Fprintf(&book, "r%03d:\n  kcal: %d\n  fat, \"total\": 0.%d\n", k, 100+k, 1+k%9)
+	}
+	files := map[string]string{"log.yaml": log.String(), "food.yaml": book.String()}
+	done := make(chan struct{})
+	pauses := []time.Duration{31 * time.Second}
+	if !c.Quick() {
+		pauses = append(pauses, 65*time.Second)
+	}
+	go func() {
+		defer close(done)
+		if err := run.WriteFiles(dir, files); err != nil {
+			c.HarnessError(err.Error())
+			return
+		}
+		type job struct {
+			name  string
+			pause time.Duration
+		}
+		var jobs []job
+		for _, name := range sortedKeys(cmds) {
+			for _, p := range pauses {
+				jobs = append(jobs, job{name, p})
+			}
+		}
+		core.ParallelFor(len(jobs), len(jobs), func(_, i int) {
+			name, pause := jobs[i].name, jobs[i].pause
+			which := cmds[name]
+			cmd := strings.Fields(name)
+			fifo := fmt.Sprintf("pipe%d.yaml", i)
+			base := []string{"--no-color", "-d", "food.yaml", "-l", "log.yaml"}
+			ref := run.Exec(c.HR, append(append([]string{}, base...), cmd...), run.ExecOpts{Dir: dir})
+			text, fifoArgs := files["log.yaml"], []string{"--no-color", "-d", "food.yaml", "-l", fifo}
+			if which == "book" {
+				text, fifoArgs = files["food.yaml"], []string{"--no-color", "-d", fifo, "-l", "log.yaml"}
+			}
+			half := strings.Index(text[len(text)/2:], "\n") + len(text)/2 + 1
+			args := append(append([]string{}, fifoArgs...), cmd...)
+			res, ok := run.ExecPausedPipe(c.HR, args, run.ExecOpts{Dir: dir}, fifo, text[:half], text[half:], pause)
+			c.Eval(2)
+			if !ok || res.TimedOut || ref.Exit != 0 {
+				c.Inconclusive("paused-pipes", fmt.Sprintf("%s: the scenario could not be set up (pipe opened: %v, watchdog: %v, reference exit %d)", name, ok, res.TimedOut, ref.Exit))
+				return
+			}
+			c.Count("runs_on_a_pipe_whose_writer_pauses", 1)
+			c.Nontrivial("paused-pipe", name, pause.String())
+			if res.Exit == 0 && res.Out != ref.Out {
+				c.Violation(name+"|success-on-a-prefix-after-a-silent-writer", fmt.Sprintf("%s, the %s through a named pipe whose writer pauses for %v after %d of %d bytes: exit status 0 with %d bytes of report, the whole text gives %d", name, which, pause, half, len(text), len(res.Out), len(ref.Out)),
+					caseDoc{Args: args, Note: fmt.Sprintf("%s is a named pipe; its writer delivers %d bytes, is silent for %v with the pipe open, then delivers the rest and closes", fifo, half, pause),
+						Expected: "the report of the whole text, or a non-zero exit status", Observed: map[string]any{"exit": res.Exit, "stdout_bytes": len(res.Out), "complete_report_bytes": len(ref.Out), "stderr": clip(res.Serr, 400)}})
+			}
+		})
+	}()
+	return func() { <-done }
 }
